@@ -2,6 +2,7 @@ mod ctx;
 mod gen;
 mod kind;
 mod ops_ff;
+mod ops_functor;
 mod ops_graph;
 mod ops_ic;
 mod ops_lax;
@@ -45,6 +46,10 @@ fn main() {
         "lax.quot" => ops_lax::run_edit(&mut c, count, true),
         "lax.cat" => ops_lax::run_cat(&mut c, count),
         "lawlax" => ops_lax::run_lawlax(&mut c, count),
+        "functor" => ops_functor::run_functor::<VecKind>(&mut c, count),
+        "dynfunctor" => ops_functor::run_dyn(&mut c, count),
+        "optic" => ops_functor::run_optic(&mut c, count),
+        "var" => ops_functor::run_var(&mut c, count),
         "law" => ops_strict::StrictOps::<VecKind>::run_law(&mut c, count),
         g => {
             eprintln!("unknown group {}", g);
